@@ -31,7 +31,9 @@
    Clauses (first failing one is the verdict):
      WireGarbage WireContiguous StatusLine Framing          the wire is a sequence of well-formed responses
      InOrderOnce ResponseOwner ResponseAfterError           <= 1 final response per request, in request order
-     BadGets4xxAndClose                                     unparsable input: 4xx, then closed, nothing else
+     BadGets4xxAndClose                                     unparsable input: 4xx, then closed, nothing else; also: the
+                                                            server itself closed (o.pd = the harness did not disconnect)
+                                                            on reaching fully delivered unparsable input, without a 4xx
      NoOrphan                                               open + idle + next request fully delivered + no handler
      NoEscape                                               loop exception handler called / exception left data_received
      QueueBound Backpressure PausedNobodyHome               bounded queue (requests AND 400 placeholders); pause is
@@ -48,6 +50,9 @@
      NoOrphan_UpgradeBodyAfterResponse   an upgrade request with a body was answered (declined) before its body
                                was complete; the deferred upgrade takes effect afterwards and is never undone:
                                later requests are buffered, never answered
+     InOrderOnce_HTTPExceptionAfterOutput   a handler that had already started its response (prepare() /
+                               write()) raised an HTTPException: the exception's response is written behind
+                               the started one (a status line inside the chunked body), connection kept alive
      CloseDelimitedKeptOpen    a close-delimited response was written and the connection stays open
                                (C02's subject: HTTP/1.0 keep-alive + unsized StreamResponse; the C05
                                drivers do not generate it)                                         *)
@@ -99,7 +104,8 @@ WireClause(c) ==
     LET R == c.resps
         n == Len(R)
     IN
-    IF \E k \in 1..n : R[k].garbage THEN "WireGarbage"
+    IF \E k \in 1..n : R[k].garbage /\ R[k].hxw THEN "InOrderOnce_HTTPExceptionAfterOutput"
+    ELSE IF \E k \in 1..n : R[k].garbage THEN "WireGarbage"
     ELSE IF n > 0 /\ R[1].start # 0 THEN "WireContiguous"
     ELSE IF \E k \in 1..n : k < n /\ (R[k + 1].start # R[k].end \/ ~R[k].complete) THEN "WireContiguous"
     ELSE IF n > 0 /\ R[n].end # c.wlen THEN "WireContiguous"
@@ -193,6 +199,10 @@ Clause(p, e, c) ==
             [] c.items[nx].k = "poisonP" -> "BadGets4xxAndClose_PoisonTarget"
             [] OTHER -> "NoOrphan")
     ELSE IF quiet /\ o.paused THEN (IF lateUp THEN "NoOrphan_UpgradeBodyAfterResponse" ELSE "PausedNobodyHome")
+    ELSE IF e.ev = "end" /\ o.closed /\ ~o.pd /\ ~o.bud /\ o.hrun = 0 /\ ~errDone /\ nx > 0
+            /\ ~TermBefore(c.items, nx) /\ c.items[nx].k \in {"bad", "poisonP", "poisonF"} /\ c.items[nx].end <= o.d
+            /\ (lf = 0 \/ ~R[lf].close) /\ (Len(R) = 0 \/ R[Len(R)].complete)
+         THEN "BadGets4xxAndClose"      \* the server closed on unparsable input without answering it
     ELSE IF quiet /\ o.w = c.wlen /\ Len(R) > 0 /\ ~R[Len(R)].complete /\ e.ev = "end" THEN "ResponseTruncatedOpen"
     ELSE ""
 
@@ -200,7 +210,7 @@ TInit ==
     /\ tid \in 1..NTraces
     /\ l = 0
     /\ prev = [w |-> 0, d |-> 0, closed |-> FALSE, lost |-> FALSE, paused |-> FALSE, idle |-> TRUE,
-               hrun |-> 0, hin |-> 0, hin0 |-> 0, esc |-> 0, wp |-> FALSE, bud |-> FALSE, pop |-> 0, nh |-> 0, ni |-> 0]
+               hrun |-> 0, hin |-> 0, hin0 |-> 0, esc |-> 0, wp |-> FALSE, bud |-> FALSE, pop |-> 0, pd |-> FALSE, nh |-> 0, ni |-> 0]
     /\ bad = WireClause(Cfg(tid))
     /\ Verdict(tid, 0, bad, <<>>)
 
